@@ -293,6 +293,10 @@ def gen_profiles(thorough):
     p.append(dict(name="bfs_rename_restart", mode="bfs", sample=None,
                   consts=dict(Node="{1,2}" if thorough else "{1}", BaseName='{"a","b"}', Kinds='{"index","virtual"}',
                               Types='{"create","rename"}', MaxReq=3, MaxRestart=1), depth=3))
+    # free channels renamed through either node, bootstrapper restarts in between
+    p.append(dict(name="bfs_free_rename", mode="bfs", sample=1500 if thorough else 150,
+                  consts=dict(Node="{1,2}", BaseName='{"a"}', ExtraName='{"b"}', Kinds='{"free"}',
+                              Types='{"create","rename"}', MaxReq=4, MaxRestart=1), depth=4))
     # two CreateMany calls inside one caller transaction
     p.append(dict(name="bfs_chain", mode="bfs", sample=3000 if thorough else 200,
                   consts=dict(Node="{1,2}", BaseName='{"a","b"}' if thorough else '{"a"}',
@@ -463,7 +467,9 @@ def run(ctx):
             (row.get("drift") or {}).get("what", "propagation"), json.dumps(row.get("drift") or row.get("note"))[:600]))
     if rc == 0 and real_drift:
         h, row = real_drift[0]
-        print("NOTE property=C15 drift next to known findings: %s" % json.dumps(row.get("drift") or row.get("note"))[:400])
+        fn = ctx.save_replay({"history": h, "row": row}, name="drift-%s-%d.json" % (ctx.tier, ctx.seed))
+        print("NOTE property=C15 drift next to known findings (%s): %s" % (
+            fn, json.dumps(row.get("drift") or row.get("note"))[:400]))
     if rc == 0 and (missing or zero):
         raise vlib.Inconclusive("vacuity: mechanisms never exercised %s; spec actions never taken %s" % (missing, zero))
     return rc
